@@ -85,6 +85,7 @@ def step (s : St) : List String → St × String
       | some m => ({ univ := [], pool := Pool.empty m, fl := ⟨[], 0, 0⟩ }, "ok")
       | none => (s, "bad-op")
   | ["reset"] => ({}, "ok")
+  | "rcflow" :: _ => (s, "ok")   -- real-chain stream: verdicts come from the real node, judged by the oracle only
   | "tx" :: rest => match parseTx rest with
       | some t => ({ s with univ := t :: s.univ.filter (·.id != t.id) }, "ok")
       | none => (s, "bad-op")
